@@ -22,8 +22,14 @@ def http_part(ctx, fails, named):
     n = ctx.tlc_generate("HttpIngest", cfg, cases, label="http-seq2")
     out = ctx.path("out-http.json")
     rc, txt, wall = ctx.go_test("c03", run="TestCases", env={"VERIF_CASES": cases, "VERIF_OUT": out,
-                                                             "VERIF_MUTATIONS": "1" if ctx.tier == "quick" else "6"})
+                                                             "VERIF_MUTATIONS": "1" if ctx.tier == "quick" else "6",
+                                                             "VERIF_EVERY": "5" if ctx.tier == "quick" else "1"})
     if rc != 0 or not os.path.exists(out):
+        crash = vlib.crash_attribution(txt)
+        if crash:   # the process died while executing gostatsd's request handling: that is what C03 forbids
+            fails.append({"prop": "C03", "sig": "http-process-killed:" + crash[0][:60],
+                          "desc": "the test process was terminated inside the ingestion handler: %s" % crash[0], "case": {"stack": crash[1]}})
+            return None
         raise vlib.MachineryError("harness c03 failed (rc=%d)\n%s" % (rc, txt[-3000:]))
     r = vlib.read_results(out)
     ctx.cov["traces_validated_against_impl"] += n
@@ -49,6 +55,11 @@ def robust_part(ctx, fails, named):
         every = "3" if ctx.tier == "quick" else "1"
         rc, txt, wall = ctx.go_test("c05", run="TestRobust", env={"VERIF_CASES": cases, "VERIF_OUT": out, "VERIF_EVERY": every})
         if rc != 0 or not os.path.exists(out):
+            crash = vlib.crash_attribution(txt)
+            if crash:
+                fails.append({"prop": "C03", "sig": "parser-process-killed:" + crash[0][:60],
+                              "desc": "the test process was terminated inside datagram parsing: %s" % crash[0], "case": {"stack": crash[1]}})
+                continue
             raise vlib.MachineryError("harness c05/TestRobust failed (rc=%d)\n%s" % (rc, txt[-3000:]))
         r = vlib.read_results(out)
         os.unlink(cases)
